@@ -799,6 +799,13 @@ impl Line {
                 field += 1;
             }
             /*
+             * A filename and a value are required, a truncated line must not
+             * create an empty entry.
+             */
+            if field < 4 {
+                return Line::None;
+            }
+            /*
              * Valid actions are "Size", or a valid Digest type.  Anything
              * else is unmatched.
              */
